@@ -71,7 +71,7 @@ func genC21(seed int64, tier string, emit func(run.Case)) {
 	r := gen.New(seed*7919 + 21)
 	nd, ne := 330, 40
 	if tier == "thorough" {
-		nd, ne = 12000, 1500
+		nd, ne = 6600, 800
 	}
 	id := 0
 	for _, eng := range []string{"dagre", "elk"} {
@@ -201,9 +201,15 @@ func execC21(c run.Case) (res run.Result) {
 			// (Object.SpacingOpt "padding": INSIDE_TOP_*, INSIDE_BOTTOM_*, INSIDE_MIDDLE_LEFT/RIGHT)
 			// by growing the shape — also a leaf with explicit dimensions
 			trig := ":" + sv
-			if c21InsideEdge(o.HasLabel(), o.LabelPosition) || c21InsideEdge(o.HasIcon(), o.IconPosition) {
+			insideEdge := c21InsideEdge(o.HasLabel(), o.LabelPosition) || c21InsideEdge(o.HasIcon(), o.IconPosition)
+			iconLabel := o.HasLabel() && o.HasIcon()
+			switch {
+			case in.Engine == "elk" && iconLabel:
+				// d2elklayout: "this gives shapes extra height for their label if they also have an icon"
+				trig = ":icon+label"
+			case insideEdge:
 				trig = ":label-or-icon-at-inside-edge-position"
-			} else if o.HasLabel() && o.HasIcon() {
+			case iconLabel:
 				trig = ":icon+label"
 			}
 			switch {
